@@ -8,7 +8,8 @@ consumer-side buffer never exceeds the window.
 """
 from rd_util import run_rd_check, oracle_c43
 
-THEOREMS = ["C43_never_beyond_requested", "C43_emitted_within_demand", "C43_buffer_within_window"]
+THEOREMS = ["C43_never_beyond_requested", "C43_emitted_within_demand", "C43_buffer_within_window",
+            "C43_chunked_registration_refuted", "C43_chunked_registration_partial"]
 
 
 def run(ctx):
@@ -21,7 +22,7 @@ META = {
     "ready": True,
     "category": "proof",
     "technique": "Rocq inductive invariant (shared model with C42) + actor-step conformance of the real controllers on generated fault schedules",
-    "text": "Three theorems for ALL fault schedules of any length: demandUpTo and even currentSeq never exceed the consumer controller's highest request, which stays within one window of its confirmations, and every SequencedMessage ever sent is within it; at emission time the seq is within the demand; the receive buffer is strictly ascending within (expectedSeq, requestUpToSeq] and so holds at most window-1 entries (the buffer-full drop is unreachable). The real controllers run generated schedules (slow consumer, window 1..16, reordering) and must agree with the Coq model step by step; the oracle measures emitted seqs against requests and the buffer against the window.",
+    "text": "Three theorems (whole-payload flows, both registration rules) for ALL fault schedules of any length: demandUpTo and even currentSeq never exceed the consumer controller's highest request, which stays within one window of its confirmations, and every SequencedMessage ever sent is within it; at emission time the seq is within the demand; the receive buffer is strictly ascending within (expectedSeq, requestUpToSeq] and so holds at most window-1 entries (the buffer-full drop is unreachable). The real controllers run generated schedules (slow consumer, window 1..16, reordering) and must agree with the Coq model step by step; the oracle measures emitted seqs against requests and the buffer against the window.",
     "design_ref": "DESIGN.md 7/C43",
     "level_note": "Same scope as C42: theorems over the volatile whole-payload core; chunked and durable flows are run on the real code under the oracle only.",
 }
